@@ -146,6 +146,17 @@ def rename_private(sources: dict) -> dict:
     mapping = {v: v + "_pv" for v in defined}
     out = {}
     for rel, tree in trees.items():
+        out[rel] = _apply_private_mapping(tree, mapping)
+    rename_private.last_mapping = mapping  # the test-suite validation renames the tests' uses too
+    return out
+
+
+def apply_private_mapping_to_source(src: str, mapping: dict) -> str:
+    return _apply_private_mapping(ast.parse(src), mapping)
+
+
+def _apply_private_mapping(tree, mapping: dict) -> str:
+    if True:
         for n in ast.walk(tree):
             if isinstance(n, ast.Attribute) and n.attr in mapping:
                 # do not touch attributes of foreign modules (sys._getframe, re._parser)
@@ -168,8 +179,7 @@ def rename_private(sources: dict) -> dict:
                 n.arg = mapping[n.arg]
             elif isinstance(n, ast.arg) and n.arg in mapping:
                 n.arg = mapping[n.arg]
-        out[rel] = ast.unparse(ast.fix_missing_locations(tree)) + "\n"
-    return out
+    return ast.unparse(ast.fix_missing_locations(tree)) + "\n"
 
 
 def flip_if_else(sources: dict) -> dict:
@@ -211,7 +221,11 @@ def reorder_defs(sources: dict) -> dict:
                     for x in ast.walk(d):
                         if isinstance(x, ast.Name):
                             names_used_at_import.add(x.id)
-        idx = [i for i in idx if body[i].name not in names_used_at_import]
+        # a name defined several times (overload stubs + implementation) must keep its order
+        from collections import Counter
+
+        multi = {n for n, c in Counter(st.name for st in body if isinstance(st, (ast.FunctionDef, ast.AsyncFunctionDef, ast.ClassDef))).items() if c > 1}
+        idx = [i for i in idx if body[i].name not in names_used_at_import and body[i].name not in multi]
         fns = [body[i] for i in idx]
         for i, f in zip(idx, reversed(fns)):
             body[i] = f
@@ -219,15 +233,14 @@ def reorder_defs(sources: dict) -> dict:
     return out
 
 
-# Only generators whose output passes the unedited test suite are used as twins
-# (tools/check_autotwins.py --suite).  rename_private is exact for the package but the test
-# suite itself reaches into private names, and reorder_defs is not validated: both are kept
-# for experiments only.
+# Only generators whose output passes the test suite are used as twins
+# (tools/check_autotwins.py --suite).  The suite is used unedited except for rename_private:
+# the tests themselves reach into a few private names, so for that twin the same renaming is
+# applied to the tests' uses of those names in the scratch copy.
 GENERATORS = {
     "auto-rename-locals": rename_locals,
     "auto-flip-if-else": flip_if_else,
-}
-EXPERIMENTAL = {
-    "auto-rename-private": rename_private,
     "auto-reorder-defs": reorder_defs,
+    "auto-rename-private": rename_private,
 }
+EXPERIMENTAL: dict = {}
